@@ -49,6 +49,7 @@ def _one(ctx, i, rep=None):
     gen_.lit_style = 'rich'
     if i % 4 == 1:
         gen_.preuse = 0.2
+    gen_.psupref = 0.12
     g = gen_.grammar()
     variant = ctx.rng('litspelling', i).choice([0, 0, 0, 0, 1, 2, 3])
     text = P.pr_variant(g, variant)
@@ -80,6 +81,15 @@ def _one(ctx, i, rep=None):
         ctx.count('inputs')
         ctx.count('autokwd_on' if cfg['autokwd'] else 'autokwd_off')
         toks = RP.all_tokens(tree)
+        # suppressed literal / regex matches leave no token in the tree: take them from the terminal log of the derivation
+        covered = {(t.start, t.end) for t in toks}
+        for (a_, b_, kind_, text_) in getattr(tree, 'terminals', []):
+            if kind_ in ('lit', 're') and (a_, b_) not in covered:
+                pt = RP.Tok(kind_ if kind_ == 're' else 'lit', text_, a_, b_)
+                pt.in_comment = False
+                toks.append(pt)
+                ctx.count('suppressed_terminals_included')
+        toks.sort(key=lambda t_: t_.start)
         letters = letter_positions(s, toks)
         if not letters:
             continue
